@@ -144,6 +144,12 @@ struct default_color_converter_impl<hsv_t,rgb_t>
          h = get_color( src, hue_t() );
          h *= 6.f;
 
+         // hue is periodic: 1 denotes the same colour as 0 (sector 6 would leave red, green and blue unset)
+         if( h >= 6.f )
+         {
+            h -= 6.f;
+         }
+
          i = static_cast<uint32_t>(floor(h));
 
          frac = h - i;
